@@ -34,9 +34,14 @@ CHECKS.update({
          'parentheses; every label leaf symbolic; z3 decides value == exact rational reference truncated toward zero', '6 C07',
          'trees with <= 2 (quick) / 3 (thorough) binary operators enumerated; leaves |v| <= 2^16 (2^7 with division); literal spellings and malformed texts from catalogues'),
 })
+CHECKS.update({
+ 'C08': ('PIPE: whole real assembler on directive sequences whose #if/#elif operands are symbolic integers (one stub: the condition '
+         'operand parser); z3 decides, per line, selected-by-reference-chain-semantics <=> assembled, for all operand values', '6 C08',
+         'sequences enumerated (hand-written per historical defect + seeded random, depth <= 3); operands -1000..1000; excluded lines well-formed'),
+})
 NA = {
 }
-PENDING = ['C06','C08','C10','C13','C14','C16','C17','C19','C20']
+PENDING = ['C06','C10','C13','C14','C16','C17','C19','C20']
 NA_FIXED = {
  'C09': 'quantifier is over names/line text handled by re.findall + str.replace on concrete strings; Python re cannot run on symbolic strings and an SMT-string re-model would not be the real code (DESIGN 7)',
  'C15': 'variation enters through interpreter hash randomisation and the OS environment - process parameters, not inputs of any function the symbolic executor can run (DESIGN 7)',
